@@ -54,6 +54,17 @@ CLAIMED["C17"] = ("Proof (deductive, all valid inputs) for the conversions this 
   "NOT covered: ProtocolConfigurationOptions Marshal/UnMarshal (state machine over bytes.Buffer and binary.Read/Write, outside the executor's subset so far); this copy has no inverse functions for PLMN, S-NSSAI and AMF-ID, so 'undone by its inverse' is decided for IP addresses and DNN only.",
   "DESIGN.md §4 C17")
 
+CLAIMED["C18"] = ("Proof for the command line: stgutg.GetMode returns 1 exactly for an argument vector of length 1, 2 exactly for length 2 with second element \"-t\", 0 otherwise (vectors of length 0..3, all strings symbolic); "
+  "structural obligations (go/types, no solver): the configuration struct has exactly one field per documented key (24 keys transcribed from config.yaml/README) with that yaml tag and the documented kind, and no undocumented field.",
+  "NOT decided: what gopkg.in/yaml.v2 does with a given scalar (reflection-driven, outside the subset), and the data flow from the parsed struct through main() to each procedure parameter (main is not under contract yet). Trusted: govc, go/ssa, go/types.",
+  "DESIGN.md §4 C18")
+
+CLAIMED["C16"] = ("Proof (deductive, all 15-digit initial IMSIs, all indices below 10^4, all credential strings): stgutg.CreateUE returns a UE whose SUPI is \"imsi-\" followed by the 15-digit decimal numeral of IMSI+index, "
+  "whose RAN-UE-NGAP-ID is (IMSI+index) mod 10^4, which carries exactly the configured K/OPc/OP and (NEA0, NIA2); GetUESecurityCapability sets exactly the EA/IA bit of the chosen algorithms (TS 24.501 9.11.3.54); "
+  "lemma: different indices give different SUPIs of the same length; integer lemmas (z3/cvc5 over the mathematical integers): the RAN-UE-NGAP-IDs differ and MCC/MNC digits are kept while the MSIN does not overflow.",
+  "Trusted: govc, go/ssa, SMT solvers; assumed library contracts: strconv.Atoi, fmt.Sprintf(\"%0*d\") = the w-digit numeral of n; the link between the integer lemmas and the contract clauses is made by hand (stated in the evidence). IMSIs of 15 digits only (shape).",
+  "DESIGN.md §4 C16")
+
 PENDING = {
 }
 
